@@ -152,10 +152,11 @@ namespace C19ex
 def cfg : Cfg := { role := .server, pw := 2 }
 /-- a state whose store holds a "DISCONNECT" (not constructible in Rust: `GenericStorePacket`) -/
 def sBad : St := { St.init cfg 4 with status := .connecting, store := [(1, { ver := 4, kind := .disconnect })] }
-def opAccept : Op := .send (mkV3Connack 0)
+/-- an accepting CONNACK with session present (only then is the store resent — fix 10ee029) -/
+def opAccept : Op := .send { mkV3Connack 0 with sp := true }
 
 example : (step cfg sBad opAccept).ev =
-    [.send (mkV3Connack 0) none, .send { ver := 4, kind := .disconnect } none] := by decide
+    [.send { mkV3Connack 0 with sp := true } none, .send { ver := 4, kind := .disconnect } none] := by decide
 
 /-- a well-typed state: established v5.0 connection, peer limit 2 (below the 3-byte DISCONNECT),
     one stored QoS 1 PUBLISH -/
